@@ -323,3 +323,67 @@ def get_data_roundtrips_contacts(md):
   """io._get_contact keeps contacts with dist <= 0 only; contacts inside a positive margin are dropped by get_data."""
   n = int(md.ncon)
   return n == 0 or bool(np.all(np.asarray(md.contact.dist)[:n] <= 0))
+
+
+# ------------------------------------------------------------------ feature-pinned templates (C43)
+# Random structures rarely combine the features some code paths need (a capsule-capsule contact under the elliptic
+# cone with impratio != 1, damped/limited tendons with tendon actuators, RK4 with stateful actuators and ball limits).
+# One template per worker is run before the random models; numeric parameters are drawn by Hypothesis.
+
+_OPT = ('<option timestep="%(dt)s" integrator="%(int)s" solver="Newton" cone="%(cone)s" jacobian="dense" iterations="60" '
+        'tolerance="0" ls_iterations="50" ls_tolerance="1e-9" impratio="%(imp)s"/>')
+
+_T_CONTACT = ('<mujoco>' + _OPT + '<worldbody><geom name="floor" type="plane" size="3 3 .1" condim="3"/>'
+              '<body name="b1" pos="0 0 %(z1)s"><joint name="j1_0" type="free"/><geom name="g1" type="capsule" size="%(r1)s %(l1)s" '
+              'condim="%(cd1)s" friction="%(f1)s 0.02 0.003" euler="90 %(e1)s 0"/></body>'
+              '<body name="b2" pos="0.02 0.01 %(z2)s"><joint name="j2_0" type="free"/><geom name="g2" type="capsule" size="%(r2)s %(l2)s" '
+              'condim="%(cd2)s" friction="%(f2)s 0.01 0.002" euler="%(e2)s 90 0"/></body>'
+              '<body name="b3" pos="-0.5 0.3 0.3"><joint name="j3_0" type="ball"/><geom name="g3" type="sphere" size="0.1" pos="0.2 0 -0.22" '
+              'condim="%(cd3)s"/></body></worldbody></mujoco>')
+
+_T_TENDON = ('<mujoco>' + _OPT + '<worldbody>'
+             '<body name="b1" pos="0 0 1"><joint name="h1" type="hinge" axis="0 1 0" damping="%(d1)s" armature="0.1"/>'
+             '<geom type="capsule" size=".04 .2" pos="0 0 -.2"/><site name="s1" pos="0.05 0 -0.3"/>'
+             '<body name="b2" pos="0 0 -.4"><joint name="h2" type="hinge" axis="1 0 0" damping="%(d2)s"/>'
+             '<geom type="capsule" size=".04 .2" pos="0 0 -.2"/><site name="s2" pos="0 0.05 -0.35"/></body></body>'
+             '<body name="b3" pos="0.5 0 1"><joint name="sl" type="slide" axis="0 0 1" damping="0.3"/><geom type="sphere" size=".08"/>'
+             '<site name="s3" pos="0 0 .1"/></body></worldbody>'
+             '<tendon><fixed name="t0" damping="%(td)s" stiffness="%(ts)s" frictionloss="%(tf)s" armature="0.07" limited="true" range="-0.3 0.3">'
+             '<joint joint="h1" coef="1"/><joint joint="h2" coef="-0.7"/></fixed>'
+             '<spatial name="t1" damping="%(td2)s" stiffness="5"><site site="s1"/><site site="s2"/><site site="s3"/></spatial></tendon>'
+             '<equality><joint joint1="h2" joint2="sl" polycoef="0 0.5 0 0 0"/><tendon tendon1="t0" active="%(eqa)s"/></equality>'
+             '<actuator><position name="a0" tendon="t1" kp="20" kv="1"/><general name="a1" joint="h1" dyntype="filter" dynprm="0.1" gainprm="3"/></actuator>'
+             '<sensor><tendonpos tendon="t1"/><tendonvel tendon="t0"/><actuatorfrc actuator="a0"/><jointpos joint="h2"/></sensor></mujoco>')
+
+_T_RK4 = ('<mujoco>' + _OPT + '<worldbody><geom name="floor" type="plane" size="3 3 .1"/>'
+          '<body name="b1" pos="0 0 .6"><joint name="bj" type="ball" range="0 %(rng)s" limited="true" damping=".2" stiffness="2"/>'
+          '<geom type="capsule" size=".05 .15" pos="0 0 -.2"/>'
+          '<body name="b2" pos="0 0 -.4"><joint name="hj" type="hinge" axis="0 1 0" range="-40 40" limited="true" frictionloss=".1" damping="%(d1)s"/>'
+          '<geom type="sphere" size=".07" pos="0 0 -.15" condim="%(cd1)s"/></body></body></worldbody>'
+          '<actuator><general name="a0" joint="hj" dyntype="filterexact" dynprm="0.05" gainprm="4" actlimited="true" actrange="-1 1"/>'
+          '<intvelocity name="a1" joint="hj" kp="5" actrange="-0.5 0.5"/><general name="a2" joint="bj" gear="0 1 0" dyntype="integrator" gainprm="2"/></actuator>'
+          '<sensor><ballquat joint="bj"/><actuatorfrc actuator="a0"/><jointvel joint="hj"/></sensor></mujoco>')
+
+
+@st.composite
+def pinned(draw, kind):
+  n = lambda lo, hi, d=2: mg.fmt(draw(mg.num(lo, hi, d)))
+  if kind == 'contact':
+    r1, r2 = draw(mg.num(0.06, 0.09)), draw(mg.num(0.05, 0.08))
+    pen1, pen2 = draw(mg.num(0.003, 0.02, 3)), draw(mg.num(0.003, 0.03, 3))
+    p = dict(dt='0.002', int='Euler', cone='elliptic', imp=n(1.5, 8, 1), r1=mg.fmt(r1), r2=mg.fmt(r2), l1=n(0.15, 0.25), l2=n(0.15, 0.25),
+             z1=mg.fmt(r1 - pen1), z2=mg.fmt(r1 - pen1 + r1 + r2 - pen2), cd1=str(draw(st.sampled_from([3, 4, 6]))),
+             cd2=str(draw(st.sampled_from([3, 4, 6]))), cd3=str(draw(st.sampled_from([3, 4]))), f1=n(0.3, 1.2), f2=n(0.3, 1.2),
+             e1=str(draw(st.integers(-25, 25))), e2=str(draw(st.integers(-20, 20))))
+    xml, scale, labels = _T_CONTACT % p, 0.004, ['pinned:contact', 'geom:capsule', 'jnt:free', 'jnt:ball']
+  elif kind == 'tendon':
+    p = dict(dt='0.004', int='Euler', cone='pyramidal', imp='1', d1=n(0.1, 1.5), d2=n(0.1, 1.5),
+             td=n(0.2, 2), ts=n(1, 15, 1), tf=n(0.05, 0.5), td2=n(0.1, 1.5), eqa=draw(st.sampled_from(['true', 'false'])))
+    xml, scale, labels = _T_TENDON % p, 0.6, ['pinned:tendon', 'tendon:fixed', 'tendon:spatial', 'eq:joint', 'eq:tendon', 'jnt:hinge', 'jnt:slide']
+  else:
+    p = dict(dt='0.003', int='RK4', cone='pyramidal', imp='1', rng=str(draw(st.integers(15, 40))), d1=n(0.05, 0.5),
+             cd1=str(draw(st.sampled_from([1, 3, 4]))))
+    xml, scale, labels = _T_RK4 % p, 0.5, ['pinned:rk4', 'jnt:ball', 'jnt:hinge', 'act:filterexact', 'act:intvelocity', 'act:integrator']
+  oinfo = dict(integrator=p['int'], cone=p['cone'], solver='Newton', flags={})
+  info = dict(option=oinfo, labels=sorted(labels + ['int:' + p['int'], 'cone:' + p['cone']]), pos_scale=scale, family='pinned')
+  return mg.GenModel(xml, info)
